@@ -4,8 +4,8 @@ import json, os, re, glob
 V = os.path.dirname(os.path.dirname(os.path.abspath(__file__)))
 rows = []
 def key(d):
-    m = re.match(r"(C\d+)-(r2-)?(\d+)", d)
-    return (m.group(1), 1 if m.group(2) else 0, int(m.group(3)))
+    m = re.match(r"(C\d+)-(r\d-)?(\d+)", d)
+    return (m.group(1), int(m.group(2)[1]) if m.group(2) else 0, int(m.group(3)))
 dirs = sorted([os.path.basename(p) for p in glob.glob(os.path.join(V, "seeded", "C*"))], key=key)
 for d in dirs:
     m = json.load(open(os.path.join(V, "seeded", d, "meta.json")))
